@@ -354,7 +354,7 @@ def add_readout(b, rng, max_terms=4):
         return None
     k = rng.randint(1, min(max_terms, len(cands)))
     chosen = rng.sample(cands, k)
-    b.last_readout = list(chosen)
+    b.last_readout = []     # the tensors that really are multiplied into L (hence certainly in the graph L.backward() clears)
     terms = []
     for t in chosen:
         w = B.rand_values(rng, np.shape(b.val(t)), 0.3, 1.5)
@@ -364,6 +364,7 @@ def add_readout(b, rng, max_terms=4):
         s = b.call("sum", [R(m)], sp=rng.choice(["mg", "meth"]), prefix="s")
         if s is not None:
             terms.append(s)
+            b.last_readout.append(t)
     if not terms:
         return None
     if len(terms) == 1:
